@@ -42,7 +42,7 @@ def setup(ctx):
     ctx.require("monitor", "decisions_wired", 1000)
     ctx.require("monitor", "refusals_seen", 200)
     ctx.require("monitor", "admissions_seen", 200)
-    ctx.require("monitor", "live_decisions", 4)
+    ctx.require("monitor", "live_decisions", 3)
 
 
 def v4(n):
